@@ -57,7 +57,14 @@ MANIFEST = {
     'note': 'CPU time is represented by step counts and loop rounds, output by bytes written; memory exhaustion through '
             'a 4 GiB length field that the peer never fills is a stall, not modelled; per-chunk buffer slicing in '
             '_recv_data is quadratic in the chunk size in bytes copied (bounded by the transport read size) and is '
-            'reported as an observation; crypto back ends and the filesystem are outside the model',
+            'reported as an observation; crypto back ends and the filesystem are outside the model. The theorems bound '
+            'the NUMBER of steps (handler calls, der_decode_partial calls, send-loop iterations), not the cost of one '
+            'step: the faithfulness audit measured super-linear cost per step in four places that neither the theorems '
+            'nor the budgets of the oracle see - `_inpbuf += data` while an announced packet is incomplete (64 MiB: '
+            '5 s, unbounded buffer before authentication), `content[offset:]` re-slicing and big-integer shifts in '
+            'asn1.py (800 kB SEQUENCE: 5 s), a peer max packet size of 1 (one write() of 64 KiB holds the loop 25 s) '
+            'and the decompression ratio of zlib (1028:1); recorded in DESIGN 9.7 as violations of "time proportional '
+            'to the input" that this check does not decide',
     'technique': 'Lean 4 totality-with-measure proofs (structural / well-founded recursion on the input, explicit step '
                  'bounds) + translator for limits and guards + differential correspondence + budgeted fuzz oracle',
 }
